@@ -11,7 +11,7 @@ LEVEL = "proof"
 def run(r):
     r.require_theorems(1)
     c10_table.run_table(r)
-    lexcommon.run_lex(r, "C10", use=("lex.bisim", "lex.wfmodes"))
+    lexcommon.run_lex(r, "C10", use=("lex.bisim", "lex.wfmodes"), also_if_broken=("C02", "C07", "C11"))
     c02_lexmodel.run_lexmodel(r, "C10")
     # parser tables: the validator reads the arrays back by the documented row format
     n = 8 if r.tier == "quick" else 120
